@@ -5,7 +5,7 @@ CONSTANTS
   Rounds = {0, 1}
   Stragglers = {0, 1}
   Results = {"A", "B"}
-  MaxAdds = 4
+  MaxAdds = 3
   MaxProc = 3
 VIEW genview
 INVARIANTS EmitInv
